@@ -141,7 +141,7 @@ pub fn piece_at(hb: &[u8], p: &str, a: usize, b: usize) -> bool {
 pub fn overlapping_occurrences(occ: &[bool; MAXP], dl: usize) -> bool {
     let mut i = 0;
     let mut r = false;
-    while i + 2 < MAXP {
+    while i < 5 {
         if occ[i] && ((dl >= 2 && occ[i + 1]) || (dl >= 3 && occ[i + 2])) {
             r = true;
         }
@@ -338,40 +338,255 @@ fn body_char<S: Src, const H: usize>(s: &mut S, w: Which) -> Facts {
     run_one::<S, char, H, 4>(s, w, hs.as_str(), c, db)
 }
 
-// EXPERIMENTS (to be removed)
+// ---------------------------------------------------------------------------
+// &str delimiters (empty delimiter included), quick: string<=4 bytes, delimiter<=2 bytes
+
 harness! {
-    /// kind=bounded tier=quick bound="x"
-    #[kani::unwind(7)]
-    #[kani::stub(konst_kernel::string::non_char_boundary_panic, crate::hlib::stub_non_char_boundary_panic)]
-    fn c06_x1(s) {
-        let f = body_char::<_, 3>(s, Which::Split);
-        cov!(s, f.n == 3, "C06.cover.x1");
-    }
-}
-harness! {
-    /// kind=bounded tier=quick bound="x"
-    #[kani::unwind(7)]
-    #[kani::stub(konst_kernel::string::non_char_boundary_panic, crate::hlib::stub_non_char_boundary_panic)]
-    fn c06_x2(s) {
-        let f = body_str::<_, 3, 1>(s, Which::Split);
-        cov!(s, f.n == 3, "C06.cover.x2");
-    }
-}
-harness! {
-    /// kind=bounded tier=quick bound="x"
-    #[kani::unwind(7)]
-    #[kani::stub(konst_kernel::string::non_char_boundary_panic, crate::hlib::stub_non_char_boundary_panic)]
-    fn c06_x3(s) {
-        let f = body_str::<_, 3, 2>(s, Which::Split);
-        cov!(s, f.n == 3, "C06.cover.x3");
-    }
-}
-harness! {
-    /// kind=bounded tier=quick bound="x"
+    /// kind=bounded tier=quick bound="valid UTF-8 string<=4 bytes, &str delimiter<=2 bytes (empty included), iteration to exhaustion (<=6 pieces)"
     #[kani::unwind(8)]
     #[kani::stub(konst_kernel::string::non_char_boundary_panic, crate::hlib::stub_non_char_boundary_panic)]
-    fn c06_x4(s) {
+    fn c06_split_str(s) {
         let f = body_str::<_, 4, 2>(s, Which::Split);
-        cov!(s, f.n == 3, "C06.cover.x4");
+        cov!(s, f.dl == 0 && f.hl == 4 && f.n == 4 && f.multibyte && f.steps == 4, "C06.cover.split_empty_delim_multibyte");
+        cov!(s, f.dl == 1 && f.empty_middle && f.steps == f.n, "C06.cover.split_adjacent_delims");
+        cov!(s, f.dl == 2 && f.leading && f.trailing && f.n == 3 && f.steps == 3, "C06.cover.split_leading_and_trailing");
+        cov!(s, f.dl == 2 && f.overlapping, "C06.cover.split_overlapping_occurrences");
+        cov!(s, f.dl == 2 && f.n == 1 && f.hl == 4, "C06.cover.split_absent");
+    }
+}
+
+harness! {
+    /// kind=bounded tier=quick bound="valid UTF-8 string<=4 bytes, &str delimiter<=2 bytes (empty included), iteration to exhaustion (<=6 pieces)"
+    #[kani::unwind(8)]
+    #[kani::stub(konst_kernel::string::non_char_boundary_panic, crate::hlib::stub_non_char_boundary_panic)]
+    fn c06_rsplit_str(s) {
+        let f = body_str::<_, 4, 2>(s, Which::RSplit);
+        cov!(s, f.dl == 0 && f.hl == 4 && f.n == 4 && f.multibyte && f.steps == 4, "C06.cover.rsplit_empty_delim_multibyte");
+        cov!(s, f.dl == 1 && f.empty_middle && f.steps == f.n, "C06.cover.rsplit_adjacent_delims");
+        cov!(s, f.dl == 2 && f.leading && f.trailing && f.n == 3 && f.steps == 3, "C06.cover.rsplit_leading_and_trailing");
+        cov!(s, f.dl == 2 && f.overlapping, "C06.cover.rsplit_overlapping_occurrences");
+    }
+}
+
+harness! {
+    /// kind=bounded tier=quick bound="valid UTF-8 string<=4 bytes, &str delimiter<=2 bytes (empty included), iteration to exhaustion (<=5 pieces)"
+    #[kani::unwind(8)]
+    #[kani::stub(konst_kernel::string::non_char_boundary_panic, crate::hlib::stub_non_char_boundary_panic)]
+    fn c06_split_terminator_str(s) {
+        let f = body_str::<_, 4, 2>(s, Which::SplitTerminator);
+        cov!(s, f.dl == 0 && f.hl == 4 && f.multibyte && f.steps == f.n - 1, "C06.cover.split_terminator_empty_delim");
+        cov!(s, f.dl == 2 && f.trailing && f.steps == f.n - 1 && f.n == 2, "C06.cover.split_terminator_drops_trailing_empty");
+        cov!(s, f.dl == 1 && !f.trailing && f.steps == f.n && f.n == 3, "C06.cover.split_terminator_keeps_nonempty_last");
+        cov!(s, f.dl == 1 && f.trailing && f.empty_middle, "C06.cover.split_terminator_adjacent_trailing");
+        cov!(s, f.hl == 0 && f.dl == 1 && f.steps == 0, "C06.cover.split_terminator_empty_input");
+    }
+}
+
+harness! {
+    /// kind=bounded tier=quick bound="valid UTF-8 string<=4 bytes, &str delimiter<=2 bytes (empty included), iteration to exhaustion (<=5 pieces)"
+    #[kani::unwind(8)]
+    #[kani::stub(konst_kernel::string::non_char_boundary_panic, crate::hlib::stub_non_char_boundary_panic)]
+    fn c06_rsplit_terminator_str(s) {
+        let f = body_str::<_, 4, 2>(s, Which::RSplitTerminator);
+        cov!(s, f.dl == 0 && f.hl == 4 && f.multibyte && f.steps == f.n - 1, "C06.cover.rsplit_terminator_empty_delim");
+        cov!(s, f.dl == 2 && f.leading && f.steps == f.n - 1 && f.n == 2, "C06.cover.rsplit_terminator_drops_leading_empty");
+        cov!(s, f.dl == 1 && !f.leading && f.steps == f.n && f.n == 3, "C06.cover.rsplit_terminator_keeps_nonempty_first");
+        cov!(s, f.dl == 2 && f.overlapping && f.steps == f.n, "C06.cover.rsplit_terminator_overlapping");
+    }
+}
+
+harness! {
+    /// kind=bounded tier=quick bound="valid UTF-8 string<=4 bytes, &str delimiter<=2 bytes (empty included); rev() and one next_back() of split, then iteration to exhaustion"
+    #[kani::unwind(8)]
+    #[kani::stub(konst_kernel::string::non_char_boundary_panic, crate::hlib::stub_non_char_boundary_panic)]
+    fn c06_split_rev_str(s) {
+        let f = body_str::<_, 4, 2>(s, Which::SplitRev);
+        cov!(s, f.dl == 1 && f.n == 3 && f.steps == 3 && f.multibyte, "C06.cover.split_rev_three_pieces");
+        cov!(s, f.dl == 0 && f.n == 4 && f.steps == 4, "C06.cover.split_rev_empty_delim");
+    }
+}
+
+harness! {
+    /// kind=bounded tier=quick bound="valid UTF-8 string<=4 bytes, &str delimiter<=2 bytes (empty included); rev() and one next_back() of rsplit, then iteration to exhaustion"
+    #[kani::unwind(8)]
+    #[kani::stub(konst_kernel::string::non_char_boundary_panic, crate::hlib::stub_non_char_boundary_panic)]
+    fn c06_rsplit_rev_str(s) {
+        let f = body_str::<_, 4, 2>(s, Which::RSplitRev);
+        cov!(s, f.dl == 1 && f.n == 3 && f.steps == 3 && f.multibyte, "C06.cover.rsplit_rev_three_pieces");
+        cov!(s, f.dl == 0 && f.n == 4 && f.steps == 4, "C06.cover.rsplit_rev_empty_delim");
+    }
+}
+
+// ---------------------------------------------------------------------------
+// char delimiters (any char), quick: string<=5 bytes
+
+harness! {
+    /// kind=bounded tier=quick bound="valid UTF-8 string<=5 bytes, char delimiter (any char), iteration to exhaustion (<=6 pieces)"
+    #[kani::unwind(8)]
+    #[kani::stub(konst_kernel::string::non_char_boundary_panic, crate::hlib::stub_non_char_boundary_panic)]
+    fn c06_split_char(s) {
+        let f = body_char::<_, 5>(s, Which::Split);
+        cov!(s, f.dl == 2 && f.n == 3 && f.steps == 3 && f.hl == 5, "C06.cover.split_char2_three_pieces");
+        cov!(s, f.dl == 1 && f.n == 6 && f.steps == 6, "C06.cover.split_char_all_delims");
+        cov!(s, f.dl == 4 && f.leading && f.hl == 5, "C06.cover.split_char4_leading");
+    }
+}
+
+harness! {
+    /// kind=bounded tier=quick bound="valid UTF-8 string<=5 bytes, char delimiter (any char), iteration to exhaustion (<=6 pieces)"
+    #[kani::unwind(8)]
+    #[kani::stub(konst_kernel::string::non_char_boundary_panic, crate::hlib::stub_non_char_boundary_panic)]
+    fn c06_rsplit_char(s) {
+        let f = body_char::<_, 5>(s, Which::RSplit);
+        cov!(s, f.dl == 2 && f.n == 3 && f.steps == 3 && f.hl == 5, "C06.cover.rsplit_char2_three_pieces");
+        cov!(s, f.dl == 1 && f.n == 6 && f.steps == 6, "C06.cover.rsplit_char_all_delims");
+    }
+}
+
+harness! {
+    /// kind=bounded tier=quick bound="valid UTF-8 string<=5 bytes, char delimiter (any char), iteration to exhaustion (<=5 pieces)"
+    #[kani::unwind(8)]
+    #[kani::stub(konst_kernel::string::non_char_boundary_panic, crate::hlib::stub_non_char_boundary_panic)]
+    fn c06_split_terminator_char(s) {
+        let f = body_char::<_, 5>(s, Which::SplitTerminator);
+        cov!(s, f.dl == 2 && f.trailing && f.n == 3 && f.steps == 2 && f.hl == 5, "C06.cover.split_terminator_char_drops_trailing_empty");
+        cov!(s, f.dl == 1 && !f.trailing && f.n == 3 && f.steps == 3, "C06.cover.split_terminator_char_keeps_last");
+    }
+}
+
+harness! {
+    /// kind=bounded tier=quick bound="valid UTF-8 string<=5 bytes, char delimiter (any char), iteration to exhaustion (<=5 pieces)"
+    #[kani::unwind(8)]
+    #[kani::stub(konst_kernel::string::non_char_boundary_panic, crate::hlib::stub_non_char_boundary_panic)]
+    fn c06_rsplit_terminator_char(s) {
+        let f = body_char::<_, 5>(s, Which::RSplitTerminator);
+        cov!(s, f.dl == 2 && f.leading && f.n == 3 && f.steps == 2 && f.hl == 5, "C06.cover.rsplit_terminator_char_drops_leading_empty");
+        cov!(s, f.dl == 1 && !f.leading && f.n == 3 && f.steps == 3, "C06.cover.rsplit_terminator_char_keeps_first");
+    }
+}
+
+harness! {
+    /// kind=bounded tier=quick bound="valid UTF-8 string<=4 bytes, char delimiter (any char); rev() and one next_back() of split (of rsplit), then iteration to exhaustion"
+    #[kani::unwind(8)]
+    #[kani::stub(konst_kernel::string::non_char_boundary_panic, crate::hlib::stub_non_char_boundary_panic)]
+    fn c06_rev_char(s) {
+        let fwd = s.bool();
+        let f = body_char::<_, 4>(s, if fwd { Which::SplitRev } else { Which::RSplitRev });
+        cov!(s, fwd && f.dl == 1 && f.n == 3 && f.steps == 3, "C06.cover.split_rev_char");
+        cov!(s, !fwd && f.dl == 1 && f.n == 3 && f.steps == 3, "C06.cover.rsplit_rev_char");
+    }
+}
+
+// ---------------------------------------------------------------------------
+// 3-byte delimiters: the smallest bound at which a delimiter can overlap itself non-trivially
+// ("aab" in "aaab"); inherits the C04 search defect through string::find / rfind.
+
+harness! {
+    /// kind=bounded tier=quick bound="valid UTF-8 string<=4 bytes, &str delimiter of exactly 3 bytes, split (rsplit) to exhaustion (<=2 pieces)"
+    #[kani::unwind(7)]
+    #[kani::stub(konst_kernel::string::non_char_boundary_panic, crate::hlib::stub_non_char_boundary_panic)]
+    fn c06_split_str_delim3(s) {
+        let hs = BStr::<4>::any(s);
+        let ds = BStr::<3>::any(s);
+        let (h, d) = (hs.as_str(), ds.as_str());
+        s.assume(d.len() == 3);
+        let fwd = s.bool();
+        let f = run_one::<_, &str, 4, 3>(s, if fwd { Which::Split } else { Which::RSplit }, h, d, d.as_bytes());
+        cov!(s, fwd && f.n == 2 && f.hl == 4 && f.steps == 2, "C06.cover.split_delim3_found");
+        cov!(s, !fwd && f.n == 2 && f.hl == 4 && f.steps == 2, "C06.cover.rsplit_delim3_found");
+    }
+}
+
+// ---------------------------------------------------------------------------
+// thorough twins with larger bounds
+
+macro_rules! c06_big {
+    ($name:ident, $w:expr) => {
+        harness! {
+            /// kind=bounded tier=thorough bound="valid UTF-8 string<=5 bytes, &str delimiter<=3 bytes (empty included), iteration to exhaustion (<=7 pieces)"
+            #[kani::unwind(9)]
+    #[kani::stub(konst_kernel::string::non_char_boundary_panic, crate::hlib::stub_non_char_boundary_panic)]
+            fn $name(s) {
+                let f = body_str::<_, 5, 3>(s, $w);
+                cov!(s, f.dl == 3 && f.hl == 5 && f.n == 2, "C06.cover.big_delim3");
+                cov!(s, f.dl == 0 && f.hl == 5, "C06.cover.big_empty_delim");
+            }
+        }
+    };
+}
+c06_big! {c06_split_str_big, Which::Split}
+c06_big! {c06_rsplit_str_big, Which::RSplit}
+c06_big! {c06_split_terminator_str_big, Which::SplitTerminator}
+c06_big! {c06_rsplit_terminator_str_big, Which::RSplitTerminator}
+
+// ---------------------------------------------------------------------------
+// spec adequacy: the reference sequences vs the real std iterators (char delimiters; the empty
+// &str delimiter separately — std's non-empty &str searcher is Two-Way and too heavy for CBMC)
+
+harness! {
+    /// kind=bounded tier=thorough bound="spec adequacy: ref_split_seq/ref_rsplit_seq/term_count vs str::split/rsplit/split_terminator with char delimiters, string<=5 bytes"
+    #[kani::unwind(9)]
+    fn c06_spec_vs_std_char(s) {
+        let hs = BStr::<5>::any(s);
+        let c = s.char();
+        let h = hs.as_str();
+        let hb = h.as_bytes();
+        let mut tmp = [0u8; 4];
+        let db = c.encode_utf8(&mut tmp).as_bytes();
+        let occ = occurrences::<5, 4>(hb, db);
+        let q = ref_split_seq::<5>(hb, db.len(), &occ);
+        let r = ref_rsplit_seq::<5>(hb, db.len(), &occ);
+        let mut k = 0;
+        for p in h.split(c) {
+            chk!(s, k < q.n && is_subslice_at(hb, p.as_bytes(), q.a[k], q.b[k]), "SPEC.ref_split_seq.piece_eq_std_split_char");
+            k += 1;
+        }
+        chk!(s, k == q.n, "SPEC.ref_split_seq.count_eq_std_split_char");
+        let mut k = 0;
+        for p in h.rsplit(c) {
+            chk!(s, k < r.n && is_subslice_at(hb, p.as_bytes(), r.a[k], r.b[k]), "SPEC.ref_rsplit_seq.piece_eq_std_rsplit_char");
+            k += 1;
+        }
+        chk!(s, k == r.n, "SPEC.ref_rsplit_seq.count_eq_std_rsplit_char");
+        let mut k = 0;
+        for p in h.split_terminator(c) {
+            chk!(s, k < q.n && is_subslice_at(hb, p.as_bytes(), q.a[k], q.b[k]), "SPEC.term_count.piece_eq_std_split_terminator_char");
+            k += 1;
+        }
+        chk!(s, k == term_count(&q), "SPEC.term_count.count_eq_std_split_terminator_char");
+        cov!(s, q.n == 3 && db.len() == 2 && hb.len() == 5, "SPEC.cover.split_char2_three_pieces");
+        cov!(s, q.n == 2 && term_count(&q) == 1, "SPEC.cover.terminator_drops_empty");
+    }
+}
+
+harness! {
+    /// kind=bounded tier=thorough bound="spec adequacy: the empty-delimiter branch of ref_split_seq/ref_rsplit_seq/term_count vs str::split(\"\")/rsplit(\"\")/split_terminator(\"\"), string<=4 bytes"
+    #[kani::unwind(8)]
+    fn c06_spec_vs_std_empty(s) {
+        let hs = BStr::<4>::any(s);
+        let h = hs.as_str();
+        let hb = h.as_bytes();
+        let occ = [false; MAXP];
+        let q = ref_split_seq::<4>(hb, 0, &occ);
+        let r = ref_rsplit_seq::<4>(hb, 0, &occ);
+        let mut k = 0;
+        for p in h.split("") {
+            chk!(s, k < q.n && is_subslice_at(hb, p.as_bytes(), q.a[k], q.b[k]), "SPEC.ref_split_seq.piece_eq_std_split_empty");
+            k += 1;
+        }
+        chk!(s, k == q.n, "SPEC.ref_split_seq.count_eq_std_split_empty");
+        let mut k = 0;
+        for p in h.rsplit("") {
+            chk!(s, k < r.n && is_subslice_at(hb, p.as_bytes(), r.a[k], r.b[k]), "SPEC.ref_rsplit_seq.piece_eq_std_rsplit_empty");
+            k += 1;
+        }
+        chk!(s, k == r.n, "SPEC.ref_rsplit_seq.count_eq_std_rsplit_empty");
+        let mut k = 0;
+        for p in h.split_terminator("") {
+            chk!(s, k < q.n && is_subslice_at(hb, p.as_bytes(), q.a[k], q.b[k]), "SPEC.term_count.piece_eq_std_split_terminator_empty");
+            k += 1;
+        }
+        chk!(s, k == term_count(&q), "SPEC.term_count.count_eq_std_split_terminator_empty");
+        cov!(s, hb.len() == 4 && q.n == 4 && hb[0] >= 0xC2, "SPEC.cover.empty_delim_multibyte");
     }
 }
